@@ -83,6 +83,14 @@ class Inst:
             if k == 'goto' or k == 'drop' or k == 'assert':
                 succ[i] = [t['t']]
             elif k == 'switch':
+                cv = self._const_switch_value(t['op'])
+                if cv is not None:
+                    tgt = t['otherwise']
+                    for v, tt in t['cases']:
+                        if v == cv:
+                            tgt = tt
+                    succ[i] = [tgt]
+                    continue
                 s = [c[1] for c in t['cases']] + [t['otherwise']]
                 seen = []
                 for x in s:
@@ -98,6 +106,41 @@ class Inst:
             for s in ss:
                 pred[s].append(i)
         self._succ, self._pred = succ, pred
+
+    def _const_switch_value(self, o):
+        """value of a switch operand that is a literal, or a local whose only
+        definition in the whole body is a literal (cfg!(..), debug_assertions)"""
+        if o['k'] == 'const':
+            return o.get('v') if o.get('ck') == 'int' else None
+        if o['k'] == 'rtcheck':
+            return 1 if o['v'] else 0
+        if o['k'] in ('copy', 'move') and not o['p']['pr']:
+            l = o['p']['l']
+            if 1 <= l <= self.arg_count:
+                return None
+            vals = []
+            for blk in self.blocks:
+                if blk.get('cleanup'):
+                    continue
+                for s in blk['stmts']:
+                    if s['k'] == 'assign' and s['p']['l'] == l:
+                        if s['p']['pr']:
+                            return None
+                        rv = s['rv']
+                        if rv['k'] == 'use' and rv['op']['k'] == 'const' and rv['op'].get('ck') == 'int':
+                            vals.append(rv['op']['v'])
+                        elif rv['k'] == 'use' and rv['op']['k'] == 'rtcheck':
+                            vals.append(1 if rv['op']['v'] else 0)
+                        else:
+                            return None
+                    elif s['k'] == 'assign' and s['rv']['k'] in ('ref', 'rawptr') and s['rv']['p']['l'] == l:
+                        return None
+                t = blk['term']
+                if t['k'] == 'call' and t['dest']['l'] == l:
+                    return None
+            if len(vals) == 1:
+                return vals[0]
+        return None
 
     def rpo(self):
         if self._rpo is None:
